@@ -297,7 +297,9 @@ def conditional_rules(chk, repo):
         chk.analysis_error("C15.rangecode: the 206 Content-Range assignment was not found in FileResponse._prepare_open_file")
     for s_ in crs:
         blk = PC._block_of(s_) or []
-        off = any(isinstance(x, ast.Assign) and norm.raw(x.targets[0]) == "self._compression" and isinstance(x.value, ast.Constant) and not x.value.value for x in blk)
+        off = any(isinstance(x, ast.Assign) and norm.raw(x.targets[0]) == "self._compression" and isinstance(x.value, ast.Constant) and not x.value.value
+                  and all("_compression" in l.text for c_ in PC.pc(x, stop=K.stmt_of(s_).parent, raw=True) for l in c_ if l not in [l2 for c2 in PC.pc(s_, stop=K.stmt_of(s_).parent, raw=True) for l2 in c2])
+                  for b_ in blk for x in ast.walk(b_))
         guarded = PC.has_lit(PC.pc(s_, raw=True), [("self._compression", False), ("not self._compression", True)], True) is not None
         if off or guarded:
             chk.ok("C15.rangecode", s_, "a 206 slice is sent as stored: on-the-fly compression is off whenever Content-Range is set")
